@@ -23,6 +23,16 @@ for pkg,names in sorted(by.items()):
             res[pkg+'::'+e['Test']]=e['Action']
     want=[t for t in b['stable_pass'] if t.startswith(pkg+'::')]
     bad=[t for t in want if res.get(t)!='pass']
+    if bad:
+        # timing-sensitive tests flake when the machine is loaded: re-run only the failing top-level tests once
+        rx2='^('+'|'.join(sorted({t.split('::')[1].split('/')[0] for t in bad}))+')$'
+        p2=subprocess.run(['go','test','-vet=off','-count=1','-timeout','300s','-json','-run',rx2,rel],cwd=repo,capture_output=True,text=True,env={**__import__('os').environ,'GOFLAGS':'-mod=mod'})
+        for l in p2.stdout.splitlines():
+            try: e=json.loads(l)
+            except: continue
+            if e.get('Action') in('pass','fail','skip') and e.get('Test'):
+                res[pkg+'::'+e['Test']]=e['Action']
+        bad=[t for t in want if res.get(t)!='pass']
     print(f"{pkg}: {len(want)-len(bad)}/{len(want)} stable tests pass"+(f"  NOT PASSING: {bad[:8]}" if bad else ""))
     fail+=len(bad)
 print("STABLE-RESULT", "ok" if fail==0 else f"{fail} not passing")
